@@ -27,6 +27,18 @@ BUILTIN = ["Box", "Bilinear", "Hamming", "CatmullRom", "Mitchell", "Gaussian", "
 CPUS = ["none", "sse4", "avx2"]
 
 
+def pick(n, salt, seq):
+    """decorrelated deterministic choice: element of seq selected by a mix of the case counter and a salt
+    (plain `seq[n % len(seq)]` aliases with other modulo choices on the same counter and leaves combinations uncovered)"""
+    z = (n * 0x9E3779B97F4A7C15 + salt * 0xBF58476D1CE4E5B9 + 0x94D049BB133111EB) & 0xFFFFFFFFFFFFFFFF
+    z ^= z >> 30
+    z = (z * 0xBF58476D1CE4E5B9) & 0xFFFFFFFFFFFFFFFF
+    z ^= z >> 27
+    z = (z * 0x94D049BB133111EB) & 0xFFFFFFFFFFFFFFFF
+    z ^= z >> 31
+    return seq[z % len(seq)]
+
+
 def f32bits(x):
     return struct.unpack("<I", struct.pack("<f", x))[0]
 
